@@ -56,6 +56,11 @@ def rand_midi_score(rng, offgrid=False, many=False, too_many=False):
                 nt["amp"] = rng.choice([66, 40, 90, 127, 1])
                 if offgrid:
                     nt["dur"] = rng.choice([F(1, 5), F(2, 5), F(1, 7), F(3, 7), F(1, 3), F(1)])
+                if rng.random() < 0.04 and not nm.startswith("drums"):
+                    # the two ends of the MIDI range: key 127 (pitch 67) and key 0 (pitch -60)
+                    nt = dict(nt, kind="a", val=rng.choice([7, 0]), amp=nt.get("amp", 66))
+                    nt["oct"] = 5 if nt["val"] == 7 else -5
+                    nt.pop("dir", None); nt.pop("acc", None); nt.pop("mode", None)
                 notes.append(nt)
             c["parts"].append([nm, notes])
         if not c["parts"]:
